@@ -22,6 +22,7 @@ import (
 	"github.com/go-kit/log/level"
 	"github.com/prometheus/client_golang/prometheus"
 	"github.com/prometheus/client_golang/prometheus/promauto"
+	"github.com/prometheus/prometheus/model/labels"
 	"github.com/prometheus/prometheus/promql"
 	"github.com/prometheus/prometheus/promql/parser"
 	"github.com/prometheus/prometheus/storage"
@@ -352,6 +353,10 @@ loop:
 			resultMatrix = append(resultMatrix, s)
 		}
 		sort.Sort(resultMatrix)
+		resultMatrix, err = mergeSeriesWithSameLabels(resultMatrix)
+		if err != nil {
+			return newErrResult(ret, err)
+		}
 		ret.Value = resultMatrix
 		return ret
 	}
@@ -377,6 +382,16 @@ loop:
 				},
 			})
 		}
+		seen := make(map[uint64][]labels.Labels, len(vector))
+		for _, s := range vector {
+			h := s.Metric.Hash()
+			for _, other := range seen[h] {
+				if labels.Equal(other, s.Metric) {
+					return newErrResult(ret, errSameLabelset)
+				}
+			}
+			seen[h] = append(seen[h], s.Metric)
+		}
 		result = vector
 	case parser.ValueTypeScalar:
 		v := math.NaN()
@@ -390,6 +405,39 @@ loop:
 
 	ret.Value = result
 	return ret
+}
+
+var errSameLabelset = errors.New("vector cannot contain metrics with the same labelset")
+
+// mergeSeriesWithSameLabels expects a matrix sorted by label set. Operators number
+// their output series by input series, so one label set can come out as several
+// series, e.g. after the metric name was dropped or when series of one match group
+// take turns. Like the Prometheus engine, they form a single series as long as they
+// never have a sample at the same step, and make the query fail otherwise.
+func mergeSeriesWithSameLabels(m promql.Matrix) (promql.Matrix, error) {
+	out := m[:0]
+	for _, s := range m {
+		n := len(out)
+		if n == 0 || !labels.Equal(out[n-1].Metric, s.Metric) {
+			out = append(out, s)
+			continue
+		}
+		a, b := out[n-1].Points, s.Points
+		merged := make([]promql.Point, 0, len(a)+len(b))
+		for len(a) > 0 && len(b) > 0 {
+			switch {
+			case a[0].T == b[0].T:
+				return nil, errSameLabelset
+			case a[0].T < b[0].T:
+				merged, a = append(merged, a[0]), a[1:]
+			default:
+				merged, b = append(merged, b[0]), b[1:]
+			}
+		}
+		merged = append(append(merged, a...), b...)
+		out[n-1].Points = merged
+	}
+	return out, nil
 }
 
 func newErrResult(r *promql.Result, err error) *promql.Result {
